@@ -131,10 +131,9 @@ void harness(void)
 		unsigned want = sizes[r], got;
 		ASSUME(want <= TOT + 3);
 		if (r == attach_at) {
-			mon_last = (unsigned) ((A.d.stream_pos + bsize - 1) / bsize);   /* first announced block */
-			/* blocks announced so far must restart from the decoder's own counter: the documented
-			 * behaviour is "from 0 when attached at the start" */
-			if (attach_at == 0) mon_last = 0;
+			/* wherever the monitor is attached, the block counts it sees start at 0 and rise by one (the blocks
+			 * already decoded are announced in a burst at attach time) */
+			mon_last = 0;
 			lha_decoder_monitor(&A.d, monitor, 0);
 		}
 		ASSUME(na + want <= TOT + 4);
@@ -154,7 +153,7 @@ void harness(void)
 		if (asked >= nb) CHECK(na == nb, "reading at least the total in pieces yields everything");
 		else CHECK(na == asked || A.d.decoder_failed, "reads are filled completely while data remains");
 	}
-	if (attach_at == 0) {
+	if (attach_at < RD) {
 		CHECK(mon_ok, "monitor: block counts start at 0 and rise by exactly one, constant total");
 		CHECK(mon_total == (declared + bsize - 1) / bsize, "monitor: announced total = ceil(declared / block size)");
 		if (na == declared) CHECK(mon_last == mon_total, "monitor: reaches the announced total when the stream decodes completely");
